@@ -49,14 +49,14 @@ def judge(ctx, res, stream):
 def run(ctx: common.Ctx):
     ctx.coverage['rule'] = (
         'single-gene references from moPepGen.fake (both strands, coding with cds_start_NF / '
-        'mRNA_end_NF / Sec sites, non-coding) + 1-7 SNV/insertion/deletion records clustered '
+        'mRNA_end_NF / Sec sites, non-coding) + 1-7 SNV/insertion/deletion records (+ in 30% of the cases 1-2 alternative-splicing Insertion/Deletion/Substitution records from moPepGen.fake) clustered '
         'around start codon, stop codon, Sec codons, exon junctions or random points; random '
         'miscleavage 0-3, length / mass limits, SECT and W2F flags; streams: trypsin without '
         'exception (exact), trypsin with the default exception, all 35 enzymes; each case = real '
         'callVariant vs Spec.callVariant evaluated by the native Lean driver over ALL compatible '
         'subsets of the usable records; half of the cases are re-run with other node-collapsing '
         'parameters. non-trivial = definition or tool reports >= 1 peptide')
-    base = dict(vary=True, per_tx=(1, 7), max_size=6, window=24, witness=False)
+    base = dict(vary=True, per_tx=(1, 7), max_size=6, window=24, witness=False, as_frac=0.3)
     res = cv_checks.explore(ctx, ctx.n(220, 4000), dict(base, exception=None, variations=['collapse']))
     stats = dict(ctx.coverage['worker_stats'])
     judge(ctx, res, 'trypsin-noexc')
@@ -70,7 +70,7 @@ def run(ctx: common.Ctx):
                                     'all-enzymes': ctx.coverage['worker_stats']}
     ctx.assumptions += [
         'PARTIAL: graph construction (TVG/PVG) is not modelled; it is tied to the definition only by '
-        'this differential. Fusion, circRNA and alternative-splicing records are outside this stream.',
+        'this differential. Fusion and circRNA records are outside this stream (alternative-splicing records are in, without nested intronic variants).',
         'transcript-level inputs of the definition come through the repository loaders '
         '(VariantRecordPool.load_variants, get_transcript_sequence): covered by C11/C13/C14',
         'canonical pool comes from the real create_unique_peptide_pool (C10)']
